@@ -175,6 +175,22 @@ def check_duplicate_names(spec):
             O.fail('C10.duplicate_view_names_merged', w, {'first view alone': want}, {'listed under the name': got}, 'parse_sections accepts the file; classify_by_sections')
 
 
+def check_reference_examples():
+    """every filter printed by `tally reference views` parses and can be evaluated over a merchant (it does not fail for every merchant whatsoever)"""
+    import ref_examples
+    from datetime import date
+    from tally import expr_parser as ep
+    txns = [{'amount': 10.0 * (i + 1), 'date': date(2025, 1 + i % 6, 3), 'category': 'Food', 'subcategory': 'X', 'tags': ['business'], 'merchant': 'M'} for i in range(14)]
+    for kind, expr in ref_examples.examples(('filter',)):
+        O.case(('reference', expr))
+        try:
+            tree = ep.parse(expr)
+            ep.evaluate_ast(tree, ep.create_context(transactions=txns, num_months=6, variables={}))
+        except ep.ExpressionError as e:
+            O.fail('C10.reference_filter_example_cannot_be_evaluated', {'reference_example': expr}, 'evaluates to a truth value over a merchant with 14 payments in 6 months', str(e)[:140],
+                   'expr_parser.parse + evaluate_ast on the example text from commands/reference.py')
+
+
 def _safe(pred, s):
     try:
         return bool(pred(s))
@@ -191,6 +207,8 @@ def main():
     if O.witness:
         if 'duplicate_names' in O.witness:
             check_duplicate_names(spec)
+        elif 'reference_example' in O.witness:
+            check_reference_examples()
         else:
             check(O.witness['views'], spec)
         O.finish()
@@ -220,6 +238,7 @@ def main():
                         O.fail('C10.views_not_independent', {'views': order, 'filters': [VIEWS[x][0] for x in order]}, singles[v], g.get('V%d' % v))
     check(list(range(n)), spec)
     check_duplicate_names(spec)
+    check_reference_examples()
     check(list(reversed(range(n))), spec)
     O.sample({'views': [2, 14], 'filters': [VIEWS[2][0], VIEWS[14][0]]})
     O.finish()
